@@ -1809,10 +1809,19 @@ def _dur_get(M, fr, n, a):
     d = D(M, a[0]) if isinstance(a[0], Ref) else a[0]; ns = d.f[0]; op = n.rsplit('::', 1)[1]
     if op.startswith('as_seconds_f'): raise Unsupported('floating point view of a duration (floats are not encoded)')
     if is_sym(ns):
-        q = lambda k: ns / z3.BitVecVal(k, 128)
-        r = {'whole_nanoseconds': ns, 'whole_microseconds': q(10 ** 3), 'whole_milliseconds': q(10 ** 6), 'is_negative': ns < 0, 'is_zero': ns == 0, 'is_positive': ns > 0}.get(op)
+        def q(k):
+            # signed division by a constant, truncating toward zero, through the division lemma (fresh quotient / remainder): no 128-bit divider for the solver
+            ck = ('sdiv', ns.get_id(), k)
+            if ck not in M._divcache:
+                qq = M.fresh_bv('squot', 128); rr = M.fresh_bv('srem', 128); K = z3.BitVecVal(k, 128)
+                lim = ((1 << 127) - 1) // k
+                M.assume(z3.And(ns == qq * K + rr, rr > -K, rr < K, z3.Or(rr == 0, (rr < 0) == (ns < 0)), qq <= z3.BitVecVal(lim, 128), qq >= z3.BitVecVal(-lim, 128)))
+                M._divcache[ck] = (qq, rr, ns)
+            return M._divcache[ck][0]
+        r = {'whole_nanoseconds': lambda: ns, 'whole_microseconds': lambda: q(10 ** 3), 'whole_milliseconds': lambda: q(10 ** 6), 'is_negative': lambda: ns < 0, 'is_zero': lambda: ns == 0, 'is_positive': lambda: ns > 0}.get(op)
+        r = r() if r else None
         if op == 'whole_seconds': r = z3.Extract(63, 0, q(NS))
-        if op == 'subsec_nanoseconds': r = z3.Extract(31, 0, z3.SRem(ns, z3.BitVecVal(NS, 128)))
+        if op == 'subsec_nanoseconds': q(NS); r = z3.Extract(31, 0, M._divcache[('sdiv', ns.get_id(), NS)][1])
         if r is None: raise Unsupported('duration accessor ' + op)
         return r
     q = lambda x, k: (abs(x) // k) * (1 if x >= 0 else -1)
